@@ -161,6 +161,23 @@ func TestC08(t *testing.T) {
 				c.c08Text(s, "boundaries", cs, false)
 			}
 		})
+		c.Sub("lines-after-multiline-tokens", func(s *Sub) {
+			if c.Shard != 0 {
+				return
+			}
+			heads := []string{"", "x = \"a\nb\nc\";\n", "/* c1\nc2\nc3 */\n", "// lc\n\n\n", "x = \"a\nb\"; /* m\nn */ // t\n", "\n\n\t\n", "x = [\n1,\n2\n];\n", bn.KwFun + " f(\na,\nb\n) {\n" + bn.KwReturn + "\na;\n}\n"}
+			tails := []string{bn.KwPrint + " 1", bn.KwPrint + " ;", "1 = 2;", "(", ")", "}", "{", "a.;", "a[1;", "f(1,;", bn.KwIf + " (1", bn.KwIf + " (1)", bn.KwElse + " 1;", bn.KwFor + " (;;", bn.KwFor + " (;;)", bn.KwWhile + " (", bn.KwFun + " g(", bn.KwFun + " g() {", bn.KwVar + " ", bn.KwVar + " v =", bn.KwVar + " " + bn.BLen + ";",
+				bn.KwReturn + " ", "x = {k: 1", "x = {k: ", "x = {k", "x = [1, ", "\"open", "/* open", "#", "1 +", "1 + ;", "!", "a b;", "a = = 1;", bn.KwBreak, bn.KwContinue + " 1;"}
+			for _, h := range heads {
+				for _, t := range tails {
+					for _, end := range []string{"", "\n", "\n\n", " // trailing", "\n/* trailing\ncomment */"} {
+						c.c08Text(s, "lines-after-multiline-tokens", h+t+end, true)
+						c.c08Text(s, "lines-after-multiline-tokens", h+bn.KwPrint+" \"ok\";\n"+t+end, true)
+					}
+				}
+			}
+			c.Ev.MarkExhaustive(fmt.Sprintf("%d heads with multi-line strings/comments/blank lines x %d truncated or malformed tails x 5 text endings", len(heads), len(tails)))
+		})
 		c.Sub("assignment-targets", func(s *Sub) {
 			if c.Shard != 0 {
 				return
